@@ -58,7 +58,7 @@ def parseGroup (s : String) : Option SGroup := do
       | 'c' :: _ => pure ()
       | 'D' :: t =>
         match (String.ofList t).splitOn ":" with
-        | ["send", p, _, e] => let p ← parsePayload p; g := { g with act := some (.send p), truncate := e = "t" }
+        | ["send", p, _, e] => let p ← parsePayload p; g := { g with act := some (.send p), truncate := e.startsWith "t" }
         | ["recv", _, _] => g := { g with act := some .recv }
         | ["none"] => g := { g with act := some .touch }
         | _ => none
